@@ -377,7 +377,15 @@ func (c *Ctx) trBinary(x *ast.BinaryExpr) Val {
 		op := map[token.Token]string{token.LSS: "<", token.LEQ: "<=", token.GTR: ">", token.GEQ: ">="}[x.Op]
 		return bval(app(op, c.intT(x.X), c.intT(x.Y)))
 	case token.ADD:
-		return ival(add(c.intT(x.X), c.intT(x.Y)))
+		a, b := c.tr(x.X), c.tr(x.Y)
+		if isString(a.T) && isString(b.T) && c.E != nil {
+			// string concatenation: a fresh string defined by its bytes (memoised per operand pair)
+			return c.E.concatSpec(a, b)
+		}
+		if !isInteger(a.T) || !isInteger(b.T) {
+			c.fail(x, "expected integer, got %s + %s", a.T, b.T)
+		}
+		return ival(add(a.C[0], b.C[0]))
 	case token.SUB:
 		return ival(sub(c.intT(x.X), c.intT(x.Y)))
 	case token.MUL:
@@ -808,4 +816,40 @@ func max(a, b int) int {
 		return a
 	}
 	return b
+}
+
+
+// concatSpec: the concatenation of two strings in a contract expression.
+func (e *Enc) concatSpec(a, b Val) Val {
+	// the memo key uses the defining expressions of named registers, so that the code's
+	// concatenations and the contract's are the same term
+	unalias := func(cs []string) string {
+		var out []string
+		for _, c := range cs {
+			for i := 0; i < 4; i++ {
+				if d, ok := e.alias[c]; ok {
+					c = d
+				} else {
+					break
+				}
+			}
+			out = append(out, c)
+		}
+		return strings.Join(out, " ")
+	}
+	key := unalias(a.C) + " ++ " + unalias(b.C)
+	if e.catMemo == nil {
+		e.catMemo = map[string]Val{}
+	}
+	if v, ok := e.catMemo[key]; ok {
+		return v
+	}
+	arr := e.fresh("scat", SArr)
+	n := add(a.C[2], b.C[2])
+	q := e.freshName("k")
+	e.def(fmt.Sprintf("(forall ((%s Int)) (! (=> (and (<= 0 %s) (< %s %s)) (= (select %s %s) (ite (< %s %s) (select %s (+ %s %s)) (select %s (+ %s (- %s %s)))))) :pattern ((select %s %s))))",
+		q, q, q, n, arr, q, q, a.C[2], a.C[0], a.C[1], q, b.C[0], b.C[1], q, a.C[2], arr, q))
+	v := Val{tString, []string{arr, "0", n}}
+	e.catMemo[key] = v
+	return v
 }
